@@ -10,6 +10,36 @@ func familiesFor(prop string) []Family {
 		return []Family{{"reduce", 4, famReduce}}
 	case "C06":
 		return []Family{{"indexing", 4, famIndexing}}
+	case "C01":
+		return []Family{{"dag", 5, famDAG}, {"deep-chain", 1, famDeepChain}}
+	case "C02":
+		return []Family{{"vjp", 8, famVJP}}
+	case "C07":
+		return []Family{{"broadcast-grad", 5, famBroadcastGrad}}
+	case "C08":
+		return []Family{{"tracking", 4, famTracking}}
+	case "C09":
+		return []Family{{"total", 5, famTotal}}
+	case "C10":
+		return []Family{{"alias", 5, famAlias}}
+	case "C11":
+		return []Family{{"train", 4, famTrain}}
+	case "C12":
+		return []Family{{"loss-value", 5, famLossValue}}
+	case "C13":
+		return []Family{{"loss-grad", 5, famLossGrad}}
+	case "C14":
+		return []Family{{"act-value", 5, famActValue}}
+	case "C15":
+		return []Family{{"act-grad", 5, famActGrad}}
+	case "C16":
+		return []Family{{"fc", 4, famFC}}
+	case "C17":
+		return []Family{{"sgd", 4, famSGD}}
+	case "C18":
+		return []Family{{"init", 5, famInit}}
+	case "C19":
+		return []Family{{"accuracy", 4, famAccuracy}}
 	}
 	return nil
 }
